@@ -7,14 +7,13 @@ export OMPI_ALLOW_RUN_AS_ROOT=1 OMPI_ALLOW_RUN_AS_ROOT_CONFIRM=1
 run_demo() { # id tag
   local id=$1 tag=$2 d=/tmp/seed-out/$1 out=/tmp/seedconfirm_$1_$2.log rc
   ( cd $d
-    case $id in
-      C16) ./build.sh $WT >/dev/null 2>&1 && timeout 600 ./demo.sh ;;
-      C23|C01|C24) timeout 900 ./demo.sh $WT ;;
-      C08|C35|C28|C13|C15|C09|C04|C17|C03|C32|C25|C34) if [ -x ./demo.sh ]; then timeout 1500 ./demo.sh $WT; else sh ./demo.sh $WT; fi ;;
-      *) gcc -O1 -g -D_GNU_SOURCE -std=gnu11 $(mpicc --showme:compile) -I$WT -I$WT/parsec/include -I$WT/_build/parsec/include -I$WT/_build demo.c -o /tmp/demo_$id \
+    if [ "$id" = C16 ]; then ./build.sh $WT >/dev/null 2>&1 && timeout 600 ./demo.sh
+    elif [ -f ./demo.sh ]; then timeout 1500 sh ./demo.sh $WT
+    else
+         gcc -O1 -g -D_GNU_SOURCE -std=gnu11 -mcx16 $(mpicc --showme:compile) -I$WT -I$WT/parsec/include -I$WT/_build/parsec/include -I$WT/_build demo.c -o /tmp/demo_$id \
              -L$WT/_build/parsec -lparsec -Wl,-rpath,$WT/_build/parsec $(mpicc --showme:link) -lpthread -lm 2>&1 | tail -3
-         timeout 900 /tmp/demo_$id ;;
-    esac ) > $out 2>&1; rc=$?
+         timeout 900 /tmp/demo_$id
+    fi ) > $out 2>&1; rc=$?
   echo "$id $tag rc=$rc | $(tail -1 $out | cut -c1-140)"
 }
 for id in "$@"; do
